@@ -134,7 +134,7 @@ def run_shard(ctx):
 
     @given(regcommon.reg_cases(max_nodes=max_nodes, max_ops=max_ops, det_share=60, disturb_last=True, faults=False, xdeps=True, alias=True, sread=True))
     def test(case):
-        check_case(ctx, case)
+        runner.guarded(ctx, check_case, case)
 
     runner.drive(ctx, test, ctx.n(2400, 40000))
 
